@@ -34,14 +34,18 @@ Tree(o, b) == Unordered(Meaning(o, b))
 
 StripNL(b) == IF b # <<>> /\ b[Len(b)] = 10 THEN SubSeq(b, 1, Len(b) - 1) ELSE b
 
+\* property a disagreement between routes is reported under: the pad sweep is run for C07
+\* (buffering independence) and for C15 (omitempty takes effect exactly when documented)
+RouteProp(rec) == IF rec.kind = "sweep" THEN rec.prop ELSE "C07"
+
 CheckValid(rec) ==
     LET o == O(rec)
         m == Out(rec, "marshal")
         routes == {"marshal", "write", "write-plain", "encode"}
         bytesOf(r) == IF r = "encode" THEN StripNL(Out(rec, r)[3]) ELSE Out(rec, r)[3] IN
     IF \E r \in routes : Out(rec, r)[2] /\ ~ValidOne(o, bytesOf(r)) THEN <<"C02", "invalid-json-with-nil-error">>
-    ELSE IF \E r \in routes : Out(rec, r)[2] # m[2] THEN <<"C07", "routes-disagree-on-success">>
-    ELSE IF m[2] /\ \E r \in routes : Tree(o, bytesOf(r)) # Tree(o, m[3]) THEN <<"C07", "routes-disagree-on-bytes">>
+    ELSE IF \E r \in routes : Out(rec, r)[2] # m[2] THEN <<RouteProp(rec), "routes-disagree-on-success">>
+    ELSE IF m[2] /\ \E r \in routes : Tree(o, bytesOf(r)) # Tree(o, m[3]) THEN <<RouteProp(rec), "routes-disagree-on-bytes">>
     ELSE IF m[2] /\ (Out(rec, "encode")[3] = <<>> \/ Out(rec, "encode")[3][Len(Out(rec, "encode")[3])] # 10) THEN <<"C07", "encoder-newline">>
     ELSE IF m[2] /\ rec.opts.name = "deterministic" /\ \E r \in routes : bytesOf(r) # m[3] THEN <<"C07", "deterministic-bytes-differ">>
     ELSE <<>>
@@ -141,7 +145,7 @@ CheckAmbig(rec) ==
 
 Check(rec) ==
     IF rec.panic # "" THEN <<"C20", "panic">>
-    ELSE CASE rec.kind = "valid" -> CheckValid(rec)
+    ELSE CASE rec.kind \in {"valid", "sweep"} -> CheckValid(rec)
            [] rec.kind = "roundtrip" -> CheckRoundTrip(rec)
            [] rec.kind = "untyped" -> CheckUntyped(rec)
            [] rec.kind = "merge" -> CheckMerge(rec)
